@@ -44,6 +44,13 @@ func callTf(name, in string) (obs string) {
 	if out != saved {
 		return "ALIASED"
 	}
+	// the idempotence identities of the property statement (trimming, whitespace and NUL removal), on every input
+	switch strings.ToLower(name) {
+	case "trim", "trimleft", "trimright", "removenulls", "removewhitespace", "compresswhitespace":
+		if again, _, _ := t(strings.Clone(out)); again != out {
+			return "NOT-IDEMPOTENT"
+		}
+	}
 	if terr != nil {
 		return "- 0 1"
 	}
